@@ -170,6 +170,64 @@ func (ex *Exec) fmtString(args []Value) string {
 	return f
 }
 
+// concreteSprintf evaluates fmt.Sprintf exactly when the format is constant, uses only the verbs d, s, q, x (with flags
+// and widths) and every operand is a concrete integer or string; anything else stays opaque.
+func (ex *Exec) concreteSprintf(format Value, variadic Value) (string, bool) {
+	f, ok := concStr(format)
+	if !ok {
+		return "", false
+	}
+	sl, ok := variadic.(SliceV)
+	if !ok {
+		return "", false
+	}
+	verbs := 0
+	for i := 0; i < len(f); i++ {
+		if f[i] != '%' {
+			continue
+		}
+		i++
+		for i < len(f) && strings.ContainsRune("0123456789+-# .", rune(f[i])) {
+			i++
+		}
+		if i >= len(f) {
+			return "", false
+		}
+		if f[i] == '%' {
+			continue
+		}
+		if !strings.ContainsRune("dsqx", rune(f[i])) {
+			return "", false
+		}
+		verbs++
+	}
+	if verbs != sl.Len {
+		return "", false
+	}
+	var ops []any
+	for i := 0; i < sl.Len; i++ {
+		v := ex.load(sl.Arr.Kids[sl.Off+i])
+		iv, ok := v.(IfaceV)
+		if !ok {
+			return "", false
+		}
+		t, ok := iv.V.(*smt.Term)
+		if !ok || !t.IsConst() {
+			return "", false
+		}
+		if c, ok := concStr(t); ok && (t.Sort.K == smt.KStr || isOrd(t)) {
+			ops = append(ops, c)
+			continue
+		}
+		if n, ok := concInt(t); ok {
+			ops = append(ops, n)
+			continue
+		}
+		return "", false
+	}
+	return fmt.Sprintf(f, ops...), true
+}
+
 func init() {
 	reg("google.golang.org/grpc/status.Error", func(ex *Exec, g *G, fn *ssa.Function, args []Value, done func(Value)) {
 		code := codeTerm(ex, args[0])
@@ -292,6 +350,12 @@ func init() {
 		done(ex.boolC(false))
 	})
 	reg("fmt.Sprintf|fmt.Sprint|fmt.Sprintln", func(ex *Exec, g *G, fn *ssa.Function, args []Value, done func(Value)) {
+		if fn.Name() == "Sprintf" && len(args) == 2 {
+			if out, ok := ex.concreteSprintf(args[0], args[1]); ok {
+				done(ex.strC(out))
+				return
+			}
+		}
 		done(ex.strC("<fmt:" + ex.fmtString(args) + ">"))
 	})
 	reg("log.Printf|log.Println|log.Print|fmt.Printf|fmt.Println", func(ex *Exec, g *G, fn *ssa.Function, args []Value, done func(Value)) {
